@@ -9,7 +9,10 @@ EXPLANATION = (
     "accepted. R2 only the interactive printer writes user source files (other writers are scaffolding/snapshot code, listed), "
     "and — because a Diffs payload snapshots the whole file and rewrite_action overwrites the file from it — no producer may "
     "create such payloads inside a loop over the documents/match units of one path (two payloads for one path lose the first "
-    "one's edits while both are counted)."
+    "one's edits while both are counted). R3 the run that announces (--json) and the run that applies (-U) compute the same findings: "
+    "code reachable from the per-file producers reads the output options only through OutputArgs::needs_interactive, whose result may "
+    "only choose the diff route / CombinedScan::scan's separate_fix flag, and the rule vector selected for a file reaches "
+    "CombinedScan::new without being filtered, truncated or reordered."
 )
 NOT_DECIDED = "Byte-level equality of the written file with the spliced text; that files without accepted edits are untouched as bytes (follows from rewrite_action's early return, checked structurally only)."
 TRUSTED = ["std::fs::write replaces the file content atomically enough for a single-threaded consumer", "nightly rustc MIR"]
@@ -31,6 +34,7 @@ def fields_read(prog, f, operand):
 def run(ctx):
     prog = ctx.prog
     ctx.rule("R1", "announced == applied by construction: one Diff datum read by both; overlap test dominates acceptance; counter tied to acceptance")
+    ctx.rule("R3", "announce mode and apply mode scan alike: producers read output options only via needs_interactive; selected rules reach CombinedScan::new unmodified")
     ctx.rule("R2", "one writer of user files; no whole-file Diffs payload is created per document/match unit of one path")
     # ---- R1 -------------------------------------------------------------------------------------
     aggs = [(f, s) for f, bi, si, s in prog.aggregates_of(DIFF) if f.impl_trait != "core::clone::Clone"]
@@ -215,3 +219,66 @@ def run(ctx):
                "whole-file Diffs payloads are created per loop iteration (%s): each payload snapshots the file and rewrite_action overwrites the file from it, so edits of earlier payloads of the same path are lost although they are counted as applied" % ", ".join(sorted(set(in_loop))),
                where=f.loc())
     ctx.floor("R2", "PathWorker::produce_item impls", n, 3)
+
+    r3(ctx)
+
+
+MUTATORS = re.compile(r"::(retain|retain_mut|dedup\w*|remove|swap_remove|truncate|drain|pop|clear|split_off|sort\w*|reverse|rotate\w*|swap|insert|push|extend\w*|append)$")
+
+
+def r3(ctx):
+    import json
+    from .c17 import producer_roots
+    prog = ctx.prog
+    roots = producer_roots(prog)
+    P = {p for p in prog.reach(roots) if p in prog.fns and prog.fns[p].crate == "ast_grep"}
+    ctx.floor("R3", "producer-reachable cli functions", len(P), 60)
+    tag = "|ast_grep::utils::args::OutputArgs"
+    ni = ctx.anchor("R3", r"^ast_grep::utils::args::OutputArgs::needs_interactive$")
+    readers = []
+    for fid in sorted(P):
+        f = prog.fns[fid]
+        if any(tag in json.dumps(f.blocks[b]) for b in f.live_blocks):
+            readers.append(fid)
+    allowed = [ni.id] if ni else []
+    extra = [r for r in readers if r not in allowed]
+    ctx.ob("R3", "producers read output options only via needs_interactive", bool(ni) and not extra,
+           "OutputArgs fields are read, in producer-reachable code, only by needs_interactive" if not extra else
+           "producer-reachable code reads OutputArgs fields directly in %s: what is scanned/reported then depends on the output mode, so the edits written by -U "
+           "are no longer the ones the same command announces under --json" % extra, where=prog.fns[extra[0]].loc() if extra else (ni.loc() if ni else None))
+    # uses of needs_interactive in producers
+    n_use = 0
+    for fid in sorted(P):
+        f = prog.fns[fid]
+        for c in f.calls:
+            if ni and prog.call_targets(c) == [ni.id]:
+                n_use += 1
+                # every use of the result: a switch operand, or the separate_fix argument of CombinedScan::scan
+                bad = []
+                for c2 in f.calls:
+                    if c2 is c:
+                        continue
+                    for i, a in enumerate(c2.args):
+                        if a[0] != "k" and any(o.kind == "call" and o.ref is c for o in f.trace_operand(a)):
+                            if not (c2.best.endswith("CombinedScan::<'r, L>::scan") and i == 2):
+                                bad.append("%s arg %d" % (c2.name, i))
+                ctx.ob("R3", "%s/needs_interactive only selects the diff route" % f.id.split(" as ")[0].lstrip("<").split("::")[-1], not bad,
+                       "result is branched on and passed as separate_fix to CombinedScan::scan only" if not bad else "result flows into %s" % bad, where=f.loc(c.line))
+    ctx.floor("R3", "uses of needs_interactive in producers", n_use, 1)
+    # selected rules reach CombinedScan::new unmodified
+    for pat, selector in ((r"^<ast_grep::scan::ScanWithConfig as ast_grep::utils::worker::PathWorker>::produce_item$", "get_rule_from_lang"),):
+        f = ctx.anchor("R3", pat)
+        if not f:
+            continue
+        sel = [c for c in f.calls if c.name == selector]
+        news = [c for c in f.calls if c.best.endswith("CombinedScan::<'r, L>::new")]
+        ok = bool(sel) and bool(news)
+        muts = []
+        if ok:
+            for c in f.calls:
+                if MUTATORS.search(c.best) and c.args and any(o.kind == "call" and o.ref in sel for o in deep_roots(prog, f, c.args[0], TRANSPARENT | {"deref_mut", "as_mut_slice", "as_mut"})):
+                    muts.append(c.name)
+            direct = any(o.kind == "call" and o.ref in sel and not [p for p in o.proj if p.startswith("()")] for o in deep_roots(prog, f, news[0].args[0], set()))
+            ok = not muts and direct
+        ctx.ob("R3", "ScanWithConfig::produce_item/selected rules reach CombinedScan::new unmodified", ok,
+               "CombinedScan::new receives the vector returned by %s as is" % selector if ok else "the rule vector is modified between selection and CombinedScan::new (%s) or does not come straight from %s" % (muts, selector), where=f.loc())
